@@ -258,6 +258,18 @@ func (f *fields) dict() map[string]value {
 	return f.d
 }
 
+// sortedNames returns the named keys in sorted order. It is used when the
+// order settings are processed in is observable, e.g. by the error reported
+// if more than one setting is invalid.
+func (f *fields) sortedNames() []string {
+	names := make([]string, 0, len(f.d))
+	for name := range f.d {
+		names = append(names, name)
+	}
+	sort.Strings(names)
+	return names
+}
+
 func (f *fields) array() []value {
 	return f.a
 }
